@@ -14,7 +14,7 @@ RULE = ("event trains of 30..300 events with gaps U(0.5,10) s, drift U(-100,100)
         "missing on each side and |drift| > 1 ppm; distinct = distinct (n, missing a, missing b, mode, sign of offset, drift decile)")
 ASSUMPTIONS = ["tolerances follow least-squares error propagation: drift error <= 1 ppm + 4*jitter/T*1e6; mapping error at held-out events <= 2 ms",
                "'nearly all' true correspondences = at least 95 %"]
-REQUIRED = {"trains": 100, "pairs_checked": 5000, "heldout_checked": 100, "drift_checked": 100}
+REQUIRED = {"trains": 100, "adjacent_opposite_misses": 100, "pairs_checked": 5000, "heldout_checked": 100, "drift_checked": 100}
 CASE_TIMEOUT = 120.0
 
 
@@ -61,6 +61,16 @@ def run_case(case):
             drift = float(rng.choice([-1, 1])) * float(rng.uniform(95, 100)) * 1e-6
             force_linear = True
             res.count("long_high_drift_sprinkled_trains")
+        adjacent = None
+        if _ in (0, 5) and short_gaps is None and force_linear is None:
+            # an event missing on side a right next to (0.5 s, the shortest admissible interval) an event missing on side b, every other
+            # interval well above a second: the two leftovers are each other's nearest candidates but NOT a pair (round 19)
+            n = int(rng.integers(45, 121))
+            gaps = rng.uniform(1.2, 9.5, n)
+            adjacent = int(rng.integers(8, n - 12))
+            gaps[adjacent + 1] = 0.5
+            drift = float(rng.uniform(-60, 60)) * 1e-6
+            res.count("adjacent_opposite_misses")
         t_true = np.cumsum(gaps) + float(rng.uniform(0, 100))
         offset = float(rng.uniform(-180, 180))
         jit = float(rng.uniform(0, 1e-4)) if force_linear is None else float(rng.uniform(0.7e-4, 1e-4))
@@ -78,6 +88,11 @@ def run_case(case):
             drop_a[0] = 0
         if rng.random() < 0.2 and mb and (n - 1) not in drop_a and short_gaps is None:
             drop_b[-1] = n - 1
+        if adjacent is not None:
+            order_ = (adjacent + 1, adjacent) if _ == 0 else (adjacent, adjacent + 1)
+            drop_a = np.unique(np.r_[np.setdiff1d(drop_a, [adjacent, adjacent + 1]), order_[0]])
+            drop_b = np.unique(np.r_[np.setdiff1d(drop_b, [adjacent, adjacent + 1]), order_[1]])
+            ma, mb = drop_a.size, drop_b.size
         drop_b = np.setdiff1d(drop_b, drop_a)
         ia_true = np.setdiff1d(np.arange(n), drop_a)
         ib_true = np.setdiff1d(np.arange(n), drop_b)
